@@ -11,6 +11,7 @@ use serde::{Deserialize, Serialize};
 use specs::prelude::*;
 use specs::saveload::{
     ConvertSaveload, DeserializeComponents, MarkedBuilder, Marker, SerializeComponents, SimpleMarker, SimpleMarkerAllocator,
+    UuidMarker, UuidMarkerAllocator,
 };
 use specs::ConvertSaveload;
 use specs::storage::{BTreeStorage, ComponentEvent, DenseVecStorage, FlaggedStorage, HashMapStorage, VecStorage};
@@ -75,6 +76,7 @@ struct W {
     serialised_entities: u64,
     hash_joins: u64,
     recursive_serialisations: u64,
+    uuid_loads: u64,
 }
 
 fn new_world() -> W {
@@ -87,8 +89,10 @@ fn new_world() -> W {
     world.register::<Boom>();
     world.register::<M>();
     world.insert(SimpleMarkerAllocator::<Net>::new());
+    world.register::<UuidMarker>();
+    world.insert(UuidMarkerAllocator::new());
     let reader = world.write_storage::<F>().register_reader();
-    W { world, handles: Vec::new(), reader, out: Vec::new(), bufs: Vec::new(), serialised_entities: 0, hash_joins: 0, recursive_serialisations: 0 }
+    W { world, handles: Vec::new(), reader, out: Vec::new(), bufs: Vec::new(), serialised_entities: 0, hash_joins: 0, recursive_serialisations: 0, uuid_loads: 0 }
 }
 
 /// One operation, fully determined by (code, a, b, c); choices that depend on
@@ -348,6 +352,66 @@ fn step(w: &mut W, code: usize, a: u64, b: u64, c: u64) {
             w.world.delete_all();
             w.out.push("delete_all".into());
         }
+        20 => {
+            // data saved elsewhere with uuid markers (the uuids are part of the data, hence of the
+            // history: nothing random is asked of the library) is merged into this world; entities
+            // loaded earlier may have been deleted since, with the allocator not maintained
+            let n = 1 + (a % 3);
+            let recs: Vec<String> = (0..n)
+                .map(|k| {
+                    let u = (b + k * 7) % 12;
+                    format!(
+                        "{{\"marker\":{{\"uuid\":\"00000000-0000-4000-8000-0000000000{:02x}\"}},\"components\":[{},{}]}}",
+                        u,
+                        c + k,
+                        if (c + k) % 3 == 0 { "null".to_string() } else { (a + k).to_string() }
+                    )
+                })
+                .collect();
+            let text = format!("[{}]", recs.join(","));
+            {
+                let ents = w.world.entities();
+                let h = w.world.write_storage::<H>();
+                let v = w.world.write_storage::<V>();
+                let mut ms = w.world.write_storage::<UuidMarker>();
+                let mut alloc = w.world.write_resource::<UuidMarkerAllocator>();
+                let mut de = serde_json::Deserializer::from_str(&text);
+                let r = DeserializeComponents::<specs::error::Error, UuidMarker>::deserialize(&mut (h, v), &ents, &mut ms, &mut alloc, &mut de);
+                w.out.push(format!("deserialize uuid data {} -> {:?}", text, r.map_err(|e| e.to_string())));
+            }
+            let marked: Vec<(Entity, String)> = {
+                let ents = w.world.entities();
+                let ms = w.world.read_storage::<UuidMarker>();
+                (&ents, &ms).join().map(|(e, m)| (e, m.uuid().to_string())).collect()
+            };
+            for (e, _) in &marked {
+                if !w.handles.contains(e) {
+                    w.handles.push(*e);
+                }
+            }
+            w.out.push(format!("uuid-marked now {:?}", marked));
+            let text = {
+                let ents = w.world.entities();
+                let h = w.world.read_storage::<H>();
+                let v = w.world.read_storage::<V>();
+                let ms = w.world.read_storage::<UuidMarker>();
+                let mut buf = Vec::new();
+                let mut ser = serde_json::Serializer::new(&mut buf);
+                SerializeComponents::<std::convert::Infallible, UuidMarker>::serialize(&(&h, &v), &ents, &ms, &mut ser).unwrap();
+                drop(ser);
+                String::from_utf8(buf).unwrap()
+            };
+            w.uuid_loads += 1;
+            w.out.push(format!("serialize by uuid -> {}", text));
+        }
+        21 => {
+            use specs::saveload::MarkerAllocator;
+            let ents = w.world.entities();
+            let ms = w.world.read_storage::<UuidMarker>();
+            let mut alloc = w.world.write_resource::<UuidMarkerAllocator>();
+            alloc.maintain(&ents, &ms);
+            w.out.push("uuid allocator.maintain".into());
+        }
         _ => {
             if let Some(e) = pick(w, a) {
                 let ents = w.world.entities();
@@ -361,7 +425,7 @@ fn step(w: &mut W, code: usize, a: u64, b: u64, c: u64) {
 fn gen_history(rng: &mut Rng, n: usize) -> Vec<(usize, u64, u64, u64)> {
     (0..n)
         .map(|_| {
-            let code = rng.weighted(&[16, 8, 6, 8, 5, 4, 7, 10, 5, 7, 6, 6, 5, 3, 4, 9, 4, 4, 3, 1]);
+            let code = rng.weighted(&[16, 8, 6, 8, 5, 4, 7, 10, 5, 7, 6, 6, 5, 3, 4, 9, 4, 4, 3, 1, 5, 1]);
             (code, rng.next() % 1000, rng.next() % 1000, rng.next() % 1000)
         })
         .collect()
@@ -463,6 +527,7 @@ fn run_case(rep: &mut Report, case: u64, hashes: &mut BTreeMap<u64, u64>) {
     rep.bump("entities_serialised", a.serialised_entities);
     rep.bump("joins_over_hash_map_storage", a.hash_joins);
     rep.bump("recursive_serialisations", a.recursive_serialisations);
+    rep.bump("uuid_marker_loads", a.uuid_loads);
     let nontrivial = a.hash_joins >= 1 && a.serialised_entities >= 3;
     if nontrivial && failure.is_none() {
         rep.distinct(h);
